@@ -43,9 +43,15 @@ CHECKS = {
  "C12": ("exploration", EXH,
          "InterceptedService over 6720 requests (methods x versions x URIs x header maps incl. repeated/reserved/padded-binary/obs-text x extension x bodies incl. trailers) x 20 accepting actions and 142/267 rejecting statuses, judged by a recorder inner service and a reference multimap model; the reject path requires zero inner calls, 200, application/grpc, empty body and independently decoded status headers equal to Status::add_header; generated with_interceptor client and server are exercised too.",
          "Headers compared per key in order (cross-key order unconstrained); interceptors are closures over the public Request<()> API.", "3/C12"),
+ "C13": ("model_checking", TECH,
+         "Every interleaving (choices cost nothing) of {start call k, release the next gated handler step of call k, fire the shutdown signal, offer a new connection} for 1..2 (thorough 3) unary/server-streaming calls on 1..2 connections, each event followed by quiescence in virtual time, runs on the real Server::serve_with_incoming_shutdown over in-memory pipes (fragmentation menu; signal and new connection in the same step under 4 RNG seeds; thorough: max_connection_age); RefShutdown: every call whose handler was invoked ends with its full outcome, nothing hangs, the serve future stays unresolved while accepted calls have steps outstanding and before any signal, resolves afterwards and never with Err, a connection offered after the signal never reaches a handler.",
+         "Interleavings inside hyper/h2/tokio below event granularity follow the deterministic current-thread order (varied via fragmentation patterns and RNG seeds, not enumerated); clients drop their channels once their calls have finished.", "3/C13"),
  "C14": ("fault_enumeration", "exhaustive enumeration of fault scripts (connect fails / succeeds / established connection dropped / call) against the real Channel over an owned in-memory network in virtual time, with a reference model stepped in lock-step",
          "Every canonical event script up to length 6 (thorough 9) over {call, connector starts failing, connector starts succeeding, peer drops the connection} x lazy/eager x initial connector mode x connector/pipe/timeout variants runs on the real Endpoint::connect_with_connector[_lazy] -> Channel -> hyper/h2 -> Server stack; every call outcome and the number of connector invocations must equal RefChannel's (answer when connected; one attempt per call while disconnected; UNAVAILABLE only to the triggering call; eager initial failure reported by connect; never a hang under the virtual-time horizon).",
          "Faults land at quiescent points (as the quantifier states); task interleavings inside hyper/h2/tokio follow the deterministic current-thread order.", "3/C14"),
+ "C15": ("exploration", "exhaustive enumeration of the finite TLS configuration matrix with real handshakes on the real Endpoint/Server code over an owned in-memory network, against a boolean reference function",
+         "All 486 cells of client roots x domain source x server ALPN (tonic-terminated h2, or a harness rustls terminator offering none / http/1.1 in front of a plain tonic server) x assume_http2 x server client-auth x client identity, plus https without TLS configuration, run real ring handshakes over in-memory pipes: the call succeeds iff the reference says so (open cells unjudged), failures reach no handler, client-side verification failures surface at connect, the first bytes the client sends are a TLS handshake record (never plaintext), handlers see the verified client chain.",
+         "rustls/webpki/ring trusted; certificate space = committed fixture PKI; peer certificates read from the TlsConnectInfo<()> extension because the pipe's ConnectInfo is ().", "3/C15"),
  "C16": ("model_checking", TECH,
          "Inner gRPC responses (0..2 frames, trailer-map menu) delivered to the real GrpcWebService under every chunking within the bound (all compositions for short bodies, plus drip) for every Accept value, decoded by an independent grpc-web(-text) decoder: identical message bytes then exactly one 0x80 trailers frame listing every trailer; grpc-web requests (binary and base64 text, every composition into chunks) must reach the inner service as the original gRPC bytes; the full method x version x content-type dispatch table (405 / 400 / untouched pass-through).",
          "Text responses are accepted as concatenations of independently padded base64 segments; text requests are one padded base64 stream; grpc-web media types with parameters are recorded, not judged.", "3/C16"),
